@@ -244,6 +244,12 @@ func aClassify(err error) string {
 }
 
 func callAsym(fn, alg string, key jwk.Key, data, sig, label []byte) aout {
+	o := callAsym0(fn, alg, key, data, sig, label)
+	ledger.after(Case{Family: "asym", Fn: fn, Alg: alg, Data: hx(data), Tag: hx(sig), AD: hx(label)}, map[string][]byte{"output": o.out})
+	return o
+}
+
+func callAsym0(fn, alg string, key jwk.Key, data, sig, label []byte) aout {
 	return aguard(func() aout {
 		switch fn {
 		case "EncryptPublicKey":
@@ -368,6 +374,7 @@ func runAsym(res *lib.Result, tier string, rng *lib.Rand, search bool) []asymObs
 	if search {
 		reps = 8
 	}
+	asymBatches(res, ks, rng)
 	for r := 0; r < reps; r++ {
 		encMonitors(res, ks, rng, tier)
 		sigMonitors(res, ks, rng, tier)
@@ -781,4 +788,101 @@ func replayAsym(res *lib.Result, c map[string]any) bool {
 		res.Note("replay: asym monitor " + mon + " is replayed by re-running the generator")
 	}
 	return true
+}
+
+// asymBatches: several operations whose results are kept and examined only after all of them
+// (one goroutine): encrypt K, decrypt K, then compare; sign K, then verify all.
+func asymBatches(res *lib.Result, ks *keyset, rng *lib.Rand) {
+	const k = 4
+	priv, pub := mustJWK(ks.rsa[0]), mustJWK(&ks.rsa[0].PublicKey)
+	for _, alg := range kc.SupportedAsymmetricAlgorithms() {
+		pts := make([][]byte, k)
+		for i := range pts {
+			pts[i] = rng.Bytes(8 + 8*i)
+		}
+		var cts, outs, snaps [][]byte
+		o := guarded(func() outcome {
+			for i := range pts {
+				ct, err := kc.EncryptPublicKey(cp(pts[i]), alg, pub, nil)
+				if err != nil {
+					return outcome{class: classify(err)}
+				}
+				cts = append(cts, ct)
+			}
+			ctSnaps := make([][]byte, len(cts))
+			for i := range cts {
+				ctSnaps[i] = cp(cts[i])
+			}
+			for i := range cts {
+				p, err := kc.DecryptPrivateKey(cp(cts[i]), alg, priv, nil)
+				if err != nil {
+					return outcome{class: classify(err)}
+				}
+				outs, snaps = append(outs, p), append(snaps, cp(p))
+			}
+			for i := range cts {
+				if !bytesEq(cts[i], ctSnaps[i]) {
+					return outcome{class: "ct-changed"}
+				}
+			}
+			return outcome{class: "ok"}
+		})
+		res.Count("asym batch "+alg, true)
+		res.Hit("asym:batch:" + alg)
+		c := map[string]any{"monitor": "asym-batch", "alg": alg, "key_pem": ks.pems["rsa0"], "outcome": o.class}
+		if o.class != "ok" {
+			id := "asym-valid-input-rejected"
+			if o.class == "ct-changed" {
+				id = "asym-result-aliases-later-call"
+			}
+			violate(res, id, "a batch of RSA operations failed: "+o.class+" "+o.msg, c)
+			continue
+		}
+		for i := range outs {
+			if !bytesEq(outs[i], pts[i]) {
+				id := "asym-roundtrip"
+				if bytesEq(snaps[i], pts[i]) {
+					id = "asym-result-aliases-later-call"
+				}
+				c["index"], c["pt"], c["now"] = i, hx(pts[i]), hx(outs[i])
+				violate(res, id, "a plaintext kept from a batch of decryptions is not the message any more", c)
+				break
+			}
+		}
+	}
+	for _, alg := range kc.SupportedSignatureAlgorithms() {
+		priv, pub := sigKeyJWK(alg, ks, 0, true), sigKeyJWK(alg, ks, 0, false)
+		ds := make([][]byte, k)
+		for i := range ds {
+			ds[i] = digestFor(alg, rng)
+		}
+		var sigs, snaps [][]byte
+		bad := -1
+		o := guarded(func() outcome {
+			for i := range ds {
+				s, err := kc.SignPrivateKey(cp(ds[i]), alg, priv)
+				if err != nil {
+					return outcome{class: classify(err)}
+				}
+				sigs, snaps = append(sigs, s), append(snaps, cp(s))
+			}
+			for i := range ds {
+				v, err := kc.VerifyPublicKey(cp(ds[i]), sigs[i], alg, pub)
+				if err != nil || !v {
+					bad = i
+					return outcome{class: "verify-failed"}
+				}
+			}
+			return outcome{class: "ok"}
+		})
+		res.Count("asym sig batch "+alg, true)
+		res.Hit("asym:batch:" + alg)
+		if o.class != "ok" {
+			id := "asym-sig-roundtrip"
+			if bad >= 0 && !bytesEq(sigs[bad], snaps[bad]) {
+				id = "asym-result-aliases-later-call"
+			}
+			violate(res, id, "signatures kept from a batch do not all verify afterwards: "+o.class, map[string]any{"monitor": "asym-batch", "alg": alg, "index": bad, "key_pem": sigKeyPEM(alg, ks, 0)})
+		}
+	}
 }
